@@ -115,10 +115,9 @@ func runUnmarshalSeq(pkt bool, bufs [][]byte) Outcome {
 			switch {
 			case declared > len(buf):
 				o.Fail = fmt.Sprintf("step %d: accepted although the declared header length %d exceeds the %d input bytes", step, declared, len(buf))
-			case n < declared && !oneByte:
+			case n > declared || (n < declared && !oneByte):
 				// n < declared happens only for the one-byte profile's reserved id 15 (KF-C03-reserved15);
-				// n > declared is possible on malformed input whose last element overruns its block
-				// (the element is still inside the input, which is all that C02 asks)
+				// since fix D23 an element that overruns its block is rejected, so n never exceeds it
 				o.Fail = fmt.Sprintf("step %d: header length %d, the wire declares %d", step, n, declared)
 			}
 		}
